@@ -379,6 +379,43 @@ func TestC09Concurrent(t *testing.T) {
 				t.Fatalf("C09 violated with %d concurrent writers (writer %d): %s\nSpec: %s", n, i, msg, clip(specImage(specsToWrite[i]), 3000))
 			}
 		}
+		// two of the writers now publish under ONE name in ONE directory, several times: whichever comes last, the
+		// file must read back as exactly one of the two Specs (each write is accepted, so each would read back alone)
+		shared := filepath.Join(base, fmt.Sprintf("c%d-shared", caseSeq))
+		for _, ext := range []string{".yaml", ".json"} {
+			name := "shared" + ext
+			okA, okB := true, true
+			var wg2 sync.WaitGroup
+			for i, ok := range []*bool{&okA, &okB} {
+				wg2.Add(1)
+				go func(i int, ok *bool) {
+					defer wg2.Done()
+					c, _ := cdi.NewCache(cdi.WithSpecDirs(shared), cdi.WithAutoRefresh(false))
+					for r := 0; r < rounds; r++ {
+						if err := c.WriteSpec(specsToWrite[i], name); err != nil {
+							*ok = false
+							return
+						}
+					}
+				}(i, ok)
+			}
+			wg2.Wait()
+			_, _ = okA, okB // a write may be refused or fail: whatever IS published must still be one complete Spec
+			data, rerr := os.ReadFile(filepath.Join(shared, name))
+			if rerr != nil {
+				continue // nothing was published under the name
+			}
+			rs, err := cdi.ReadSpec(filepath.Join(shared, name), 0)
+			if err != nil {
+				t.Fatalf("C09 violated: two writers published %s concurrently (%d times each); what is there now cannot be read back: %v\nfile content: %s", name, rounds, err, clip(string(data), 1500))
+			}
+			var a, b specs.Spec // the Specs as a file can hold them
+			_ = json.Unmarshal([]byte(specImage(specsToWrite[0])), &a)
+			_ = json.Unmarshal([]byte(specImage(specsToWrite[1])), &b)
+			if got := specImage(rs.Spec); got != specImage(&a) && got != specImage(&b) {
+				t.Fatalf("C09 violated: two writers published %s concurrently (%d times each); the file reads back as neither of the two Specs: %s\nfile content: %s", name, rounds, clip(got, 800), clip(string(data), 1500))
+			}
+		}
 		_ = os.RemoveAll(base)
 		_ = os.MkdirAll(base, 0o755)
 		var imgs []string
